@@ -18,7 +18,7 @@ func TestReplay(t *testing.T) {
 			return ev.InconclusiveError(err.Error())
 		}
 		switch k.Kind {
-		case "expr_rd", "cond_ship", "fields_ship", "stmt_rt":
+		case "expr_rd", "cond_ship", "fields_ship", "stmt_rt", "planned_cond":
 			return replayText(raw)
 		case "opt_codec", "remote_query":
 			return replayOpt(raw)
